@@ -67,8 +67,8 @@ def enc_fields(o, fl):
     return b"".join(out)
 
 
-def fld(key, v, ghost=0):
-    return {"key": key if isinstance(key, dict) else S_str(key, "U"), "v": v, "ghost": ghost}
+def fld(key, v, ghost=0, eq=True):
+    return {"key": key if isinstance(key, dict) else S_str(key, "U"), "v": v, "ghost": ghost, "eq": eq}
 
 
 # ------------------------------------------------------------------------------------------ shapes
@@ -318,7 +318,14 @@ METHOD_SHAPES = ["any", "bool", ("i", 8), ("i", 16), ("i", 32), ("i", 64), "i128
                  ("seq", "any"), ("hseq", "any"), ("tup", ["any", "any", "any"]), ("tups", ["any", "any", "any"]),
                  ("tups", [("i", 32), ("u", 8), "f64"]), ("map", "any"), ("hmap", "any"), ("kmap", "any", "any"),
                  ("struct", [("k", "", "any")]), ("enum", ["abc", "q", "0x4321"]), "ident", "ign",
-                 ("opt", ("newtype", ("seq", ("i", 64))))]
+                 ("opt", ("newtype", ("seq", ("i", 64)))),
+                 # targets of an rgb value: ColorSequence / InnerColorSequence forward every method to deserialize_any
+                 ("tup", ["str", ("seq", ("u", 8))]), ("tup", ["sref", ("tups", [("u", 8), ("u", 16), ("u", 32)])]),
+                 ("tups", ["any", ("hseq", "f64")]), ("seq", "ign"), ("tup", ["char", "any"]), ("tup", ["ign", ("seq", ("i", 64))])]
+
+# the root deserializers only implement deserialize_map / deserialize_struct: every other target is refused on all paths
+ROOT_REFUSED = ["any", "str", ("i", 32), "bool", ("seq", "any"), ("tup", ["any"]), ("opt", ("map", "any")), ("newtype", ("map", "any")),
+                "ign", "unit", "ustruct", ("enum", ["a"]), "char", "bytes", "u128", ("tups", ["any", "any"]), "ident", "sref", "f64"]
 
 
 def method_kinds(rng):
@@ -417,7 +424,11 @@ def methods_cases(ctx):
         ctx.count("methods_pos_" + pos)
         # the same cell through the walk model, when the model has the shape and the cell is inside its scope
         r = reduce_shape(shape)
-        if r is not None and pos != "key" and known_cell(sh, kind, pos) is None:
+        if pos == "key":
+            # the models have no typed-key map: run the same bytes through them with the dynamically typed / string-keyed targets
+            # (`any` on an object is outside the specification -- the path models still have to mirror their path)
+            r = ("struct", [("x", "", rng.choice(["any", ("map", "any"), ("map", "str"), ("seq", "any")])), ("s", "", ("i", 32))])
+        if r is not None and (pos == "key" or known_cell(sh, kind, pos) is None):
             for p in ["tape", "slice", rd]:
                 c = "\t".join(["de.model.bin", p, strat, res, fl, sstr(r), hx(b)])
                 if c not in mseen:
@@ -450,6 +461,23 @@ def run_methods(ctx, nt):
         if len(set(exps)) == 1 and len(set(outs)) > 1:
             ctx.fail("method-paths-differ", "%s: tape %s, on-demand %s, stream %s" % (cell, outs[0][:80], outs[1][:80], outs[2][:80]), [cases[j] for j in group], outs, exps[0])
         k += len(group)
+    # root targets other than map / struct
+    rng = ctx.rng
+    rcases = []
+    doc = {"t": "obj", "f": [fld("a", S_int(1, "I32")), fld("b", {"t": "arr", "v": [S_int(2, "I32")]}, ghost=1)]}
+    b = enc_fields(doc, "raw")
+    for sh in ROOT_REFUSED:
+        for p in ("tape", "slice", "reader:64:%s" % rng.choice(["-", "1*"])):
+            for data in (b, b""):
+                rcases.append("\t".join(["de.bin", p, "ignore", "map:-", "raw", sstr(sh), hx(data)]))
+                r = reduce_shape(sh)
+                if r is not None:
+                    mcases.append("\t".join(["de.model.bin", p, "ignore", "map:-", "raw", sstr(r), hx(data)]))
+    impl, _ = ctx.correspond("root_refused", rcases, nontrivial=lambda c, i: i == "ERR:de", model=False)
+    base = len(impl) - len(rcases)
+    for k, c in enumerate(rcases):
+        if impl[base + k] != "ERR:de":
+            ctx.fail("root-not-refused", "a root target that is neither a map nor a struct: %s, expected a deserialization error on every path" % impl[base + k][:120], [c], [impl[base + k]], "ERR:de")
     ctx.count("methods_model_cases", len(mcases))
     ctx.correspond("walk_model_methods", mcases, nontrivial=nt)
 
@@ -503,6 +531,11 @@ def skip_cases(ctx):
             fields = [pre, fld("skipme", {"t": "obj", "f": [fld(k, rng.choice(scal + cont), ghost=(0 if i == 0 else rng.choice([0, 1]))) for i, k in enumerate(keys)], "gend": rng.choice([0, 1])}), post]
             fsh = [("pre", "", ("i", 32)), ("skipme", "", ("map", "ign")), ("post", "", ("u", 32))]
             inner_exp = "(struct (%s (i %d)) (%s (map%s)) (%s (u %d)))" % (hx("pre"), a, hx("skipme"), "".join(" (%s (ign))" % hx(k) for k in keys), hx("post"), c)
+        # a container-valued field may come without its `=` (`key { .. }`, as in real saves); never the FIRST field of a
+        # container: `{ key { .. } .. }` starts like an array, the tape parser cannot know (outside well-formed)
+        if fields[1]["v"]["t"] in ("arr", "obj") and rng.random() < 0.3:
+            fields[1]["eq"] = False
+            ctx.count("skip_no_equal")
         doc = {"t": "obj", "f": fields, "gend": rng.choice([0, 0, 1])}
         shape = ("struct", fsh)
         exp = inner_exp
